@@ -11,50 +11,35 @@
 (* the call line, so only the POSITION is guessed).  Notifications are     *)
 (* manager-initiated: LinNotify(r) may happen any time before the          *)
 (* "Notified" line that the receiving goroutine logs; a cancelled waiter   *)
-(* may be dropped (Drop) any time after its "Cancel" line.                 *)
-(*                                                                         *)
-(* A history is ACCEPTED iff SOME placement of the internal steps explains *)
-(* all its lines without a failed obligation.  A failed obligation does    *)
-(* not block: it makes `viol` sticky, and that path may not pass the next  *)
-(* "Init" line.  TLC registers: 1 = furthest line reached with viol = "",  *)
-(* 2 = furthest line reached at all, 3 = <<line, tag>> of the violating    *)
-(* path that got furthest.  clean < any  =>  the history can only be       *)
-(* explained with a violated obligation (verdict); clean = any < end  =>   *)
-(* driver/spec mismatch (exit 2).                                          *)
+(* may be dropped (Drop) any time after its "Cancel" line (logged before   *)
+(* the channel is closed).  Acceptance: see LimitsTrace.tla.               *)
 (***************************************************************************)
-EXTENDS LimitsRM, Json
+EXTENDS LimitsRM, LimitsTrace
 
-VARIABLES pend, notif, nt, l, viol
-tvars == <<avars, pend, notif, nt, l, viol>>
-
-Trace == ndJsonDeserialize("trace.ndjson")
-Ev == Trace[l]
+VARIABLES pend, notif, nt
+tvars == <<avars, pend, notif, nt, l, viol, vl>>
 
 NoCall == [f |-> "none", lin |-> TRUE]
 ReqOf(e) == [id |-> e.id, key |-> e.key, n |-> e.n]
-SetViol(v) == viol' = IF viol # "" THEN viol ELSE v
 
 TraceInit ==
-    /\ l = 2 /\ viol = ""
-    /\ Trace[1].op = "Init"
+    /\ TraceInit0
     /\ AInitWith([limit |-> Trace[1].limit])
     /\ pend = [g \in 1 .. Trace[1].ng |-> NoCall]
     /\ notif = {} /\ nt = {}
-    /\ TLCSet(1, 1) /\ TLCSet(2, 1) /\ TLCSet(3, <<0, "">>)
 
 TrReset ==
-    /\ Ev.op = "Init" /\ viol = ""
+    /\ Ev.op = "Init" /\ Boundary
     /\ AResetWith([limit |-> Ev.limit])
     /\ pend' = [g \in 1 .. Ev.ng |-> NoCall]
     /\ notif' = {} /\ nt' = {}
-    /\ l' = l + 1 /\ viol' = ""
 
 TrCall ==
     /\ Ev.op = "call" /\ pend[Ev.g].f = "none"
     /\ pend' = [pend EXCEPT ![Ev.g] = [f |-> Ev.f, e |-> Ev, lin |-> FALSE]]
     /\ nt' = IF Ev.f = "Request" /\ Ev.nt = 1 THEN nt \cup {Ev.id} ELSE nt
-    /\ l' = l + 1
-    /\ UNCHANGED <<avars, notif, viol>>
+    /\ Advance /\ KeepViol
+    /\ UNCHANGED <<avars, notif>>
 
 \* Internal steps are only taken immediately before a line that OBSERVES something (a ret or a Notified line):
 \* postponing an internal step over call/Cancel lines never loses an explanation (partial-order reduction).
@@ -70,24 +55,24 @@ Lin(g) ==
              /\ AReq(r, TRUE)
              /\ SetViol(IF GrantOK(r) THEN "" ELSE "C17.rm.limit")          \* @obligation C17.rm.limit
           \/ /\ e.f = "Request" /\ ~e.acq /\ e.n >= 0
-             /\ AReq(r, FALSE) /\ SetViol("")
+             /\ AReq(r, FALSE) /\ KeepViol
           \/ /\ e.f = "Request" /\ ~e.acq /\ (e.n < 0 \/ e.id \in canc)
-             /\ ARefuse /\ SetViol("")
+             /\ ARefuse /\ KeepViol
           \/ /\ e.f = "Release"
-             /\ ARelease(r) /\ SetViol("")
+             /\ ARelease(r) /\ KeepViol
           \/ /\ e.f = "Stats"
              /\ UNCHANGED avars
              /\ SetViol(StatsViol(e.size, e.objects, e.pending))          \* @obligation C17.rm.balance
           \/ /\ e.f = "Close"
-             /\ UNCHANGED avars /\ SetViol("")
+             /\ UNCHANGED avars /\ KeepViol
     /\ pend' = [pend EXCEPT ![g].lin = TRUE]
     /\ UNCHANGED <<l, notif, nt>>
 
 TrRet ==
     /\ Ev.op = "ret" /\ pend[Ev.g].f = Ev.f /\ pend[Ev.g].lin
     /\ pend' = [pend EXCEPT ![Ev.g] = NoCall]
-    /\ l' = l + 1
-    /\ UNCHANGED <<avars, notif, nt, viol>>
+    /\ Advance /\ KeepViol
+    /\ UNCHANGED <<avars, notif, nt>>
 
 LinNotify(r) ==
     /\ Observing
@@ -101,57 +86,46 @@ TrNotified ==
     /\ Ev.op = "Notified"
     /\ \/ /\ Ev.id \in notif
           /\ notif' = notif \ {Ev.id} /\ nt' = nt \ {Ev.id}
-          /\ UNCHANGED viol
+          /\ KeepViol
        \/ /\ Ev.id \notin notif /\ Ev.id \notin Ids(waiters)                \* nobody is waiting under that id
           /\ SetViol("C17.rm.balance.notify")
           /\ UNCHANGED <<notif, nt>>
-    /\ l' = l + 1
+    /\ Advance
     /\ UNCHANGED <<avars, pend>>
 
 Drop(r) ==
     /\ Observing
     /\ r \in waiters /\ r.id \in canc /\ r.id \notin nt
     /\ ADrop(r)
-    /\ UNCHANGED <<pend, notif, nt, l, viol>>
+    /\ UNCHANGED <<pend, notif, nt, l, viol, vl>>
 
 TrCancel ==
     /\ Ev.op = "Cancel"
     /\ ACancel(Ev.id)
-    /\ l' = l + 1
-    /\ UNCHANGED <<pend, notif, nt, viol>>
+    /\ Advance /\ KeepViol
+    /\ UNCHANGED <<pend, notif, nt>>
 
 \* @obligation C17.rm.handshake : the watchdog found the caller blocked in Request/Release/Close while the
 \* manager goroutine sits idle in its main select (nobody will ever answer)
 TrHang ==
     /\ Ev.op = "Hang"
     /\ SetViol("C17.rm.handshake")
-    /\ l' = l + 1
+    /\ Advance
     /\ UNCHANGED <<avars, pend, notif, nt>>
 
 TrCrash ==
     /\ Ev.op = "Crash"
     /\ SetViol("C17.rm.crash")
-    /\ l' = l + 1
+    /\ Advance
     /\ UNCHANGED <<avars, pend, notif, nt>>
+
+TrEnd == Ev.op = "End" /\ Boundary /\ UNCHANGED <<avars, pend, notif, nt>>
 
 TraceNext ==
     /\ l <= Len(Trace)
-    /\ \/ TrReset \/ TrCall \/ TrRet \/ TrNotified \/ TrCancel \/ TrHang \/ TrCrash
+    /\ \/ TrReset \/ TrEnd \/ TrCall \/ TrRet \/ TrNotified \/ TrCancel \/ TrHang \/ TrCrash
        \/ \E g \in DOMAIN pend : Lin(g)
        \/ \E r \in waiters : LinNotify(r) \/ Drop(r)
 
 TraceSpec == TraceInit /\ [][TraceNext]_tvars
-
-Max(a, b) == IF a > b THEN a ELSE b
-HighWater ==
-    /\ TLCSet(2, Max(TLCGet(2), l))
-    /\ IF viol = "" THEN TLCSet(1, Max(TLCGet(1), l))
-       ELSE IF l > TLCGet(3)[1] THEN TLCSet(3, <<l, viol>>) ELSE TRUE
-
-TraceAccepted ==
-    LET clean == TLCGet(1) any == TLCGet(2) v == TLCGet(3) IN
-    IF clean = Len(Trace) + 1 THEN TRUE
-    ELSE /\ PrintT("@@REJECT " \o ToString(clean - 1) \o " " \o ToString(Len(Trace)))
-         /\ PrintT("@@VIOL " \o ToString(v[1] - 1) \o " " \o ToString(any - 1) \o " " \o v[2])
-         /\ FALSE
 =============================================================================
